@@ -6,7 +6,8 @@
       | (ok VIEW ((OUTCOME VIEW) ...))                  snapshot after construction, then outcome and snapshot per op
    (graph_roundtrip KIND A B (OP ...)) run the ops, then to_networkx / from_networkx on the model
      -> (init-error) | (ok OUTCOME VIEW)
-   VIEW = (order count edges edges2 has nbr1 nbr2 deg1 deg2 dag) ; OUTCOME = ok | ValueError | NoMethod | Crash *)
+   VIEW = (order count edges edges2 has nbr1 nbr2 deg1 deg2 dag), has = positions (row col) of the true entries of the
+   has_edge matrix over the query range -1 .. n+2 (position p = vertex p - 1) ; OUTCOME = ok | ValueError | NoMethod | Crash *)
 open Model
 open Sx
 
@@ -23,9 +24,14 @@ let op_of = function
 
 let of_outcome = function Ok -> A "ok" | ValueError -> A "ValueError" | NoMethod -> A "NoMethod" | Crash -> A "Crash"
 let of_edges = of_list (of_pair of_z of_z)
+(* the has_edge matrix as the list of (row col) positions that are true; position p stands for vertex p - 1 *)
+let of_has (m : bool list list) =
+  let acc = ref [] in
+  List.iteri (fun i row -> List.iteri (fun j b -> if b then acc := L [of_int i; of_int j] :: !acc) row) m;
+  L (List.rev !acc)
 let of_view (v : view) =
   L [of_z v.vw_order; of_z v.vw_count; of_edges v.vw_edges; of_edges v.vw_edges2;
-     of_list (of_list of_bool) v.vw_has;
+     of_has v.vw_has;
      of_list (of_opt of_zl) v.vw_nbr1; of_list (of_opt of_zl) v.vw_nbr2;
      of_list (of_opt of_z) v.vw_deg1; of_list (of_opt of_z) v.vw_deg2; of_bool v.vw_dag]
 
